@@ -134,10 +134,22 @@ def touches(p, evs):
                 if x is not None and x[0] == 'call' and x[2] in ('std::mem::MaybeUninit::as_ptr', 'std::mem::MaybeUninit::as_mut_ptr') and x[3] \
                         and x[3][0][0] in ('ref', 'rawptr') and x[3][0][1][0] == 'local':
                     t.add('OWN_SLOT_TAKE')  # ptr::read(slot.as_ptr()) of the receiver's own local slot
+            def _cell_dst(x):
+                y = x
+                while y is not None and y[0] == 'cast' and len(y) > 2:
+                    y = y[2]
+                return y is not None and y is not x and cell_get(y)
+            targ0 = ((getattr(e, 'fn', None) or {}).get('args') or [None])[0]
             if n in PTR_WRITE:
-                t.add('PTR_WRITE')
+                if len(a) >= 2 and _cell_dst(a[-2]) and targ0 == 'T':
+                    t.add('CELL_PTR_WRITE')  # `ptr::write(self.0.get() as *mut T, d)`: the value's own bytes go straight into the cell
+                else:
+                    t.add('PTR_WRITE')
             if n in PTR_COPY:
-                t.add('PTR_COPY')
+                if len(a) >= 3 and _cell_dst(a[-2]) and targ0 == 'T':
+                    t.add('CELL_PTR_COPY')   # `copy_nonoverlapping(src, self.0.get() as *mut T, 1)`
+                else:
+                    t.add('PTR_COPY')
             if n == 'std::mem::zeroed':
                 t.add('ZEROED')
             if n == 'std::mem::forget':
@@ -223,6 +235,9 @@ def p2(ctx):
                 expect(ctx, b.key, p, got, must=('DEREF_STORED', 'PTR_COPY', 'FORGET'), mustnot=('BITCOPY', 'CELL_WRITE'), what='write of a large T')
             elif big == 'T':
                 expect(ctx, b.key, p, got, must=('DEREF_STORED', 'PTR_WRITE'), mustnot=('BITCOPY', 'CELL_WRITE', 'FORGET'), what='write of a large T')
+            elif big == 'F' and zst == 'F' and 'CELL_PTR_WRITE' in got:
+                # moved into the cell in one step: `ptr::write` takes the value, there is nothing left to forget
+                expect(ctx, b.key, p, got, must=('CELL_PTR_WRITE',), mustnot=('DEREF_STORED', 'PTR_WRITE', 'BITCOPY', 'FORGET'), what='write of a small T')
             elif big == 'F' and zst == 'F':
                 expect(ctx, b.key, p, got, must=('BITCOPY', 'CELL_WRITE', 'FORGET'), mustnot=('DEREF_STORED', 'PTR_WRITE'), what='write of a small T')
             elif big == 'F' and zst == 'T':
@@ -239,6 +254,8 @@ def p2(ctx):
             ctx.oblige(1)
             if big == 'T':
                 expect(ctx, b.key, p, got, must=('DEREF_STORED', 'PTR_COPY'), mustnot=('BITCOPY', 'CELL_WRITE'), what='copy of a large T')
+            elif big == 'F' and zst == 'F' and 'CELL_PTR_COPY' in got:
+                expect(ctx, b.key, p, got, must=('CELL_PTR_COPY',), mustnot=('DEREF_STORED', 'BITCOPY', 'PTR_COPY'), what='copy of a small T')
             elif big == 'F' and zst == 'F':
                 expect(ctx, b.key, p, got, must=('BITCOPY', 'CELL_WRITE'), mustnot=('DEREF_STORED',), what='copy of a small T')
             elif big == 'F' and zst == 'T':
@@ -274,7 +291,11 @@ def p2(ctx):
                 if big == 'F':
                     if p.end == 'panic':
                         ctx.violate(b.key, p, 'new_owned panics for a small T')
-                    expect(ctx, b.key, p, got, must=('FORGET',) if zst == 'T' else ('BITCOPY', 'FORGET'), mustnot=('MU_NEW_PARAM',), what='new_owned')
+                    if zst != 'T' and 'CELL_PTR_WRITE' in got:
+                        # the value moved into the fresh cell with one `ptr::write`: nothing to encode separately, nothing left to forget
+                        expect(ctx, b.key, p, got, must=('CELL_PTR_WRITE',), mustnot=('MU_NEW_PARAM', 'FORGET', 'BITCOPY'), what='new_owned')
+                    else:
+                        expect(ctx, b.key, p, got, must=('FORGET',) if zst == 'T' else ('BITCOPY', 'FORGET'), mustnot=('MU_NEW_PARAM',), what='new_owned')
     b = body('pointer::store_as_kanal_ptr')
     if b is not None:
         ctx.instance(b.key)
@@ -472,6 +493,10 @@ def p5(ctx):
             for c in [e for e in p.events if e.kind == 'call' and e.name in PTR_COPY]:
                 ctx.oblige(1)
                 src, dst = c.args[-3], c.args[-2]
+                into_cell = has_call(dst, 'std::cell::UnsafeCell::get') and not has_call(dst, 'std::mem::MaybeUninit::assume_init') \
+                    and contains(dst, ('param', 1)) and branch(evs)[0] == 'F'
+                if src == ('param', 2) and into_cell:
+                    continue  # small T: from the argument straight into this pointer's own cell
                 if src != ('param', 2) or not has_call(dst, 'std::mem::MaybeUninit::assume_init'):
                     ctx.violate(b.key, p, 'KanalPtr::copy does not copy from its argument into the stored address', at=c.at)
     b = ctx.body(PK + 'write')
@@ -507,6 +532,13 @@ def p4(ctx):
             big, zst = branch(evs)
             fg = [e for e in evs if e.name == 'FORGET']
             ctx.oblige(1, sample='write big=%s: %d forget' % (big, len(fg)))
+            moved_in = [e for e in p.events if e.kind == 'call' and e.name == 'std::ptr::write' and e.args and e.args[-1] == ('param', 2)
+                        and has_call(e.args[-2], 'std::cell::UnsafeCell::get')]
+            if big == 'F' and zst == 'F' and len(moved_in) == 1 and not fg:
+                # `ptr::write(cell as *mut T, d)` consumes d: ownership of the bits went into the cell with the write itself
+                if any(e.name == 'DROP' and e.data['val'] == ('param', 2) for e in evs):
+                    ctx.violate(b.key, p, 'small-T write drops its argument (double drop with the receiver)')
+                continue
             if big == 'F':
                 if len(fg) != 1 or fg[0].data['val'] != ('param', 2):
                     ctx.violate(b.key, p, 'small-T write must forget its argument exactly once (otherwise the receiver\'s copy is dropped too)')
@@ -532,6 +564,10 @@ def p4(ctx):
             for p, evs in ret_paths(ctx, b):
                 fg = [e for e in evs if e.name == 'FORGET']
                 ctx.oblige(1)
+                mv = [e for e in p.events if e.kind == 'call' and e.name == 'std::ptr::write' and e.args and e.args[-1] == ('param', 1)
+                      and has_call(e.args[-2], 'std::cell::UnsafeCell::get')]
+                if len(mv) == 1 and not fg and not any(e.name == 'DROP' and e.data['val'] == ('param', 1) for e in evs):
+                    continue  # moved into the cell by ptr::write
                 if len(fg) != 1 or fg[0].data['val'] != ('param', 1):
                     ctx.violate(b.key, p, 'new_owned must forget the value whose bits it copied')
                 if any(e.name == 'DROP' and e.data['val'] == ('param', 1) for e in evs):
